@@ -3,20 +3,29 @@
 
   The invariant that makes it work: whenever a decoder returns a value, the cursor has advanced by
   at least `Size()` of that value (`Adv`).  That is what keeps `at += tmp.Size()` inside the buffer.
+  `Size()` is the generated one, `gsize`: deprecated fields, which are decoded but not counted, only make
+  it smaller than the bytes consumed.
 -/
-import Bebop.Slice
+import Bebop.Proofs.GSize
 
 namespace Bebop
 
 /-- Outcome is not a panic, and a returned value's size is covered by the bytes consumed. -/
-def Adv (buf : List Byte) : Res (Val × List Byte) → Prop
-  | .ok (v, rest) => rest.length + vsize v ≤ buf.length
+def Adv (env : Env) (ty : Ty) (buf : List Byte) : Res (Val × List Byte) → Prop
+  | .ok (v, rest) => rest.length + gsize env ty v ≤ buf.length
   | .err => True
   | .panic => False
   | .fuel => True
 
-def AdvList (buf : List Byte) (extra : Nat) : Res (List Val × List Byte) → Prop
-  | .ok (vs, rest) => rest.length + vsizeList vs ≤ buf.length + extra
+def AdvList (env : Env) (t : Ty) (buf : List Byte) (extra : Nat) : Res (List Val × List Byte) → Prop
+  | .ok (vs, rest) => rest.length + gsizeList env t vs ≤ buf.length + extra
+  | .err => True
+  | .panic => False
+  | .fuel => True
+
+/-- The same for the fields of a struct, each at its own type. -/
+def AdvStruct (env : Env) (tys : List Ty) (buf : List Byte) : Res (List Val × List Byte) → Prop
+  | .ok (vs, rest) => rest.length + gsizeStruct env tys vs ≤ buf.length
   | .err => True
   | .panic => False
   | .fuel => True
@@ -40,17 +49,17 @@ theorem readU32_true (buf : List Byte) :
 /-- Unchecked reads of a fixed-size type succeed when enough bytes remain. -/
 theorem dec_fixed_unsafe (f : Nat) (env : Env) (t : Ty) (s : Nat) (hs : fixedSize t = some s)
     (buf : List Byte) (h : s ≤ buf.length) :
-    ∃ v, dec (f+1) env false t buf = .ok (v, buf.drop s) ∧ vsize v = s := by
+    ∃ v, dec (f+1) env false t buf = .ok (v, buf.drop s) ∧ gsize env t v = s := by
   cases t <;> simp [fixedSize] at hs
   all_goals subst hs
-  all_goals simp [dec, readN, h, vsize, Facts.szBool, Facts.szFloat32, Facts.szFloat64, Facts.szDate, Facts.szGuid] at *
-  all_goals simp [h, vsize]
+  all_goals simp [dec, readN, h, gsize, Facts.szBool, Facts.szFloat32, Facts.szFloat64, Facts.szDate, Facts.szGuid] at *
+  all_goals simp [h, gsize]
 
 theorem decN_fixed_unsafe (f : Nat) (env : Env) (t : Ty) (s : Nat) (hs : fixedSize t = some s) :
     ∀ (n : Nat) (buf : List Byte), n * s ≤ buf.length →
       decN (dec (f+1) env false t) n buf = .fuel ∨
-      ∃ vs, decN (dec (f+1) env false t) n buf = .ok (vs, buf.drop (n * s)) ∧ vsizeList vs = n * s
-  | 0, buf, _ => Or.inr ⟨[], by simp [decN], by simp [vsizeList]⟩
+      ∃ vs, decN (dec (f+1) env false t) n buf = .ok (vs, buf.drop (n * s)) ∧ gsizeList env t vs = n * s
+  | 0, buf, _ => Or.inr ⟨[], by simp [decN], by simp [gsizeList]⟩
   | n+1, buf, h => by
     have h1 : s ≤ buf.length := by rw [Nat.add_mul] at h; omega
     obtain ⟨v, hv, hvs⟩ := dec_fixed_unsafe f env t s hs buf h1
@@ -64,11 +73,11 @@ theorem decN_fixed_unsafe (f : Nat) (env : Env) (t : Ty) (s : Nat) (hs : fixedSi
         refine ⟨v :: vs, ?_, ?_⟩
         · simp only [hvs', Res.ok_bind, Res.pure_eq, List.drop_drop]
           congr 3; rw [Nat.add_mul]; omega
-        · simp [vsizeList, hvs, hsz, Nat.add_mul]; omega
+        · simp [gsizeList, hvs, hsz, Nat.add_mul]; omega
 
-theorem decN_adv (d : Dec) (hd : ∀ buf, Adv buf (d buf)) :
-    ∀ (n : Nat) (buf : List Byte), AdvList buf 0 (decN d n buf)
-  | 0, buf => by simp [decN, AdvList, vsizeList]
+theorem decN_adv (env : Env) (t : Ty) (d : Dec) (hd : ∀ buf, Adv env t buf (d buf)) :
+    ∀ (n : Nat) (buf : List Byte), AdvList env t buf 0 (decN d n buf)
+  | 0, buf => by simp [decN, AdvList, gsizeList]
   | n+1, buf => by
     have h1 := hd buf
     simp only [decN]
@@ -77,7 +86,7 @@ theorem decN_adv (d : Dec) (hd : ∀ buf, Adv buf (d buf)) :
       obtain ⟨v, rest⟩ := p
       rw [hr] at h1
       simp only [Adv] at h1
-      have h2 := decN_adv d hd n rest
+      have h2 := decN_adv env t d hd n rest
       simp only [Res.ok_bind]
       split
       · simp [AdvList]
@@ -86,7 +95,7 @@ theorem decN_adv (d : Dec) (hd : ∀ buf, Adv buf (d buf)) :
           obtain ⟨vs, rest'⟩ := q
           rw [hr2] at h2
           simp only [AdvList] at h2
-          simp only [Res.ok_bind, Res.pure_eq, AdvList, vsizeList]
+          simp only [Res.ok_bind, Res.pure_eq, AdvList, gsizeList]
           omega
         | err => simp [AdvList]
         | panic => rw [hr2] at h2; simp [AdvList] at h2
@@ -95,9 +104,9 @@ theorem decN_adv (d : Dec) (hd : ∀ buf, Adv buf (d buf)) :
     | panic => rw [hr] at h1; simp [Adv] at h1
     | fuel => simp [AdvList]
 
-theorem decFields_adv (d : Ty → Dec) (hd : ∀ t buf, Adv buf (d t buf)) :
-    ∀ (tys : List Ty) (buf : List Byte), AdvList buf 0 (decFields d tys buf)
-  | [], buf => by simp [decFields, AdvList, vsizeList]
+theorem decFields_adv (env : Env) (d : Ty → Dec) (hd : ∀ t buf, Adv env t buf (d t buf)) :
+    ∀ (tys : List Ty) (buf : List Byte), AdvStruct env tys buf (decFields d tys buf)
+  | [], buf => by simp [decFields, AdvStruct, gsizeStruct]
   | t :: ts, buf => by
     have h1 := hd t buf
     simp only [decFields]
@@ -106,49 +115,58 @@ theorem decFields_adv (d : Ty → Dec) (hd : ∀ t buf, Adv buf (d t buf)) :
       obtain ⟨v, rest⟩ := p
       rw [hr] at h1
       simp only [Adv] at h1
-      have h2 := decFields_adv d hd ts rest
+      have h2 := decFields_adv env d hd ts rest
       simp only [Res.ok_bind]
       cases hr2 : decFields d ts rest with
       | ok q =>
         obtain ⟨vs, rest'⟩ := q
         rw [hr2] at h2
-        simp only [AdvList] at h2
-        simp only [Res.ok_bind, Res.pure_eq, AdvList, vsizeList]
+        simp only [AdvStruct] at h2
+        simp only [Res.ok_bind, Res.pure_eq, AdvStruct, gsizeStruct]
         omega
-      | err => simp [AdvList]
-      | panic => rw [hr2] at h2; simp [AdvList] at h2
-      | fuel => simp [AdvList]
-    | err => simp [AdvList]
+      | err => simp [AdvStruct]
+      | panic => rw [hr2] at h2; simp [AdvStruct] at h2
+      | fuel => simp [AdvStruct]
+    | err => simp [AdvStruct]
     | panic => rw [hr] at h1; simp [Adv] at h1
-    | fuel => simp [AdvList]
+    | fuel => simp [AdvStruct]
 
-theorem vsizeKVs_mapInsert (kt : Ty) (k v : Val) :
-    ∀ acc : List (Val × Val), vsizeKVs (mapInsert kt k v acc) ≤ vsizeKVs acc + vsize k + vsize v
-  | [] => by simp [mapInsert, vsizeKVs]
+theorem gsizeKVs_mapInsert (env : Env) (kty t : Ty) (kt : Ty) (k v : Val) :
+    ∀ acc : List (Val × Val),
+      gsizeKVs env kty t (mapInsert kt k v acc) ≤ gsizeKVs env kty t acc + gsize env kty k + gsize env t v
+  | [] => by simp [mapInsert, gsizeKVs]
   | (k', v') :: acc => by
-    have ih := vsizeKVs_mapInsert kt k v acc
+    have ih := gsizeKVs_mapInsert env kty t kt k v acc
     simp only [mapInsert]
-    split <;> simp [vsizeKVs] <;> omega
+    split <;> simp [gsizeKVs] <;> omega
 
-theorem vsizeFields_msgSet (i : Nat) (v : Val) :
-    ∀ acc : List (Nat × Val), vsizeFields (msgSet i v acc) ≤ vsizeFields acc + 1 + vsize v
-  | [] => by simp [msgSet, vsizeFields]
+/-- Storing a field the definition knows adds at most its tag byte and the value's `Size()` (nothing at
+    all if the field is deprecated); overwriting only removes what was there. -/
+theorem gsizeFields_msgSet (env : Env) (fds : List MsgField) (i : Nat) (v : Val) (fd : MsgField)
+    (hfd : fds.find? (fun fd => fd.idx == i) = some fd) :
+    ∀ acc : List (Nat × Val),
+      gsizeFields env fds (msgSet i v acc) ≤ gsizeFields env fds acc + 1 + gsize env fd.ty v
+  | [] => by
+    have := gfield_le env fds i v fd hfd
+    simp only [msgSet, gsizeFields_cons, gsizeFields]; omega
   | (j, w) :: acc => by
-    have ih := vsizeFields_msgSet i v acc
+    have ih := gsizeFields_msgSet env fds i v fd hfd acc
+    have := gfield_le env fds i v fd hfd
     simp only [msgSet]
     split
-    · simp [vsizeFields]; omega
-    · split <;> simp [vsizeFields] <;> omega
+    · simp only [gsizeFields_cons]; omega
+    · split <;> simp only [gsizeFields_cons] <;> omega
 
-def AdvKVs (buf : List Byte) (extra : Nat) : Res (List (Val × Val) × List Byte) → Prop
-  | .ok (kvs, rest) => rest.length + vsizeKVs kvs ≤ buf.length + extra
+def AdvKVs (env : Env) (kty t : Ty) (buf : List Byte) (extra : Nat) : Res (List (Val × Val) × List Byte) → Prop
+  | .ok (kvs, rest) => rest.length + gsizeKVs env kty t kvs ≤ buf.length + extra
   | .err => True
   | .panic => False
   | .fuel => True
 
-theorem decEntries_adv (kt : Ty) (dk dv : Dec) (hk : ∀ buf, Adv buf (dk buf)) (hv : ∀ buf, Adv buf (dv buf)) :
+theorem decEntries_adv (env : Env) (kty t : Ty) (kt : Ty) (dk dv : Dec) (hk : ∀ buf, Adv env kty buf (dk buf))
+    (hv : ∀ buf, Adv env t buf (dv buf)) :
     ∀ (n : Nat) (buf : List Byte) (acc : List (Val × Val)),
-      AdvKVs buf (vsizeKVs acc) (decEntries kt dk dv n buf acc)
+      AdvKVs env kty t buf (gsizeKVs env kty t acc) (decEntries kt dk dv n buf acc)
   | 0, buf, acc => by simp [decEntries, AdvKVs]
   | n+1, buf, acc => by
     have h1 := hk buf
@@ -164,8 +182,8 @@ theorem decEntries_adv (kt : Ty) (dk dv : Dec) (hk : ∀ buf, Adv buf (dk buf)) 
         obtain ⟨v, rest'⟩ := q
         rw [hr2] at h2; simp only [Adv] at h2
         simp only [Res.ok_bind]
-        have h3 := decEntries_adv kt dk dv hk hv n rest' (mapInsert kt k v acc)
-        have h4 := vsizeKVs_mapInsert kt k v acc
+        have h3 := decEntries_adv env kty t kt dk dv hk hv n rest' (mapInsert kt k v acc)
+        have h4 := gsizeKVs_mapInsert env kty t kt k v acc
         cases hr3 : decEntries kt dk dv n rest' (mapInsert kt k v acc) with
         | ok z =>
           obtain ⟨kvs, rest''⟩ := z
@@ -183,15 +201,16 @@ theorem decEntries_adv (kt : Ty) (dk dv : Dec) (hk : ∀ buf, Adv buf (dk buf)) 
 
 /-- The message loop stops in front of a byte it did not consume, having advanced by at least the size
     of every field it stored. -/
-def AdvLoop (buf : List Byte) (extra : Nat) : Res (List (Nat × Val) × List Byte) → Prop
-  | .ok (fs, rest) => 1 ≤ rest.length ∧ rest.length + vsizeFields fs ≤ buf.length + extra
+def AdvLoop (env : Env) (fds : List MsgField) (buf : List Byte) (extra : Nat) :
+    Res (List (Nat × Val) × List Byte) → Prop
+  | .ok (fs, rest) => 1 ≤ rest.length ∧ rest.length + gsizeFields env fds fs ≤ buf.length + extra
   | .err => True
   | .panic => False
   | .fuel => True
 
-theorem decMsgLoop_adv (d : Ty → Dec) (hd : ∀ t buf, Adv buf (d t buf)) (fds : List MsgField) :
+theorem decMsgLoop_adv (env : Env) (d : Ty → Dec) (hd : ∀ t buf, Adv env t buf (d t buf)) (fds : List MsgField) :
     ∀ (n : Nat) (buf : List Byte) (acc : List (Nat × Val)),
-      AdvLoop buf (vsizeFields acc) (decMsgLoop true d fds n buf acc)
+      AdvLoop env fds buf (gsizeFields env fds acc) (decMsgLoop true d fds n buf acc)
   | 0, buf, acc => by simp [decMsgLoop, AdvLoop]
   | n+1, buf, acc => by
     simp only [decMsgLoop]
@@ -209,8 +228,10 @@ theorem decMsgLoop_adv (d : Ty → Dec) (hd : ∀ t buf, Adv buf (d t buf)) (fds
           obtain ⟨v, rest'⟩ := p
           rw [hr] at h1; simp only [Adv] at h1
           simp only [Res.ok_bind]
-          have h2 := decMsgLoop_adv d hd fds n rest' (msgSet fd.idx v acc)
-          have h3 := vsizeFields_msgSet fd.idx v acc
+          have h2 := decMsgLoop_adv env d hd fds n rest' (msgSet fd.idx v acc)
+          have hfd' : fds.find? (fun fd' => fd'.idx == fd.idx) = some fd := by
+            rw [find_msgField fds b.toNat fd hfd]; exact hfd
+          have h3 := gsizeFields_msgSet env fds fd.idx v fd hfd' acc
           cases hr2 : decMsgLoop true d fds n rest' (msgSet fd.idx v acc) with
           | ok z =>
             obtain ⟨fs, rest''⟩ := z
@@ -224,37 +245,39 @@ theorem decMsgLoop_adv (d : Ty → Dec) (hd : ∀ t buf, Adv buf (d t buf)) (fds
         | fuel => simp [AdvLoop]
 
 /-- For record bodies only the size bound matters to the caller (it discards the returned rest). -/
-def AdvBody (buf : List Byte) : Res (Val × List Byte) → Prop
-  | .ok (v, _) => vsize v ≤ buf.length
+def AdvBody (env : Env) (ty : Ty) (buf : List Byte) : Res (Val × List Byte) → Prop
+  | .ok (v, _) => gsize env ty v ≤ buf.length
   | .err => True
   | .panic => False
   | .fuel => True
 
 theorem dec_adv_all (env : Env) : ∀ (f : Nat),
-    (∀ ty buf, Adv buf (dec f env true ty buf)) ∧
-    (∀ fds buf, AdvBody buf (decMsgBody f env true fds buf)) ∧
-    (∀ brs buf, AdvBody buf (decUnionBody f env true brs buf))
+    (∀ ty buf, Adv env ty buf (dec f env true ty buf)) ∧
+    (∀ n fds buf, env[n]? = some (.msg fds) → AdvBody env (.ref n) buf (decMsgBody f env true fds buf)) ∧
+    (∀ n brs buf, env[n]? = some (.union brs) → AdvBody env (.ref n) buf (decUnionBody f env true brs buf))
   | 0 => by
     refine ⟨?_, ?_, ?_⟩ <;> intros <;> simp [dec, decMsgBody, decUnionBody, Adv, AdvBody]
   | f+1 => by
     obtain ⟨ihd, ihm, ihu⟩ := dec_adv_all env f
-    have hmsg : ∀ fds buf, AdvBody buf (decMsgBody (f+1) env true fds buf) := by
-      intro fds buf
+    have hmsg : ∀ n fds buf, env[n]? = some (.msg fds) →
+        AdvBody env (.ref n) buf (decMsgBody (f+1) env true fds buf) := by
+      intro n fds buf hn
       simp only [decMsgBody]
       rcases readN_true 4 buf with ⟨bs, body, h, _, hl, _⟩ | h
       · simp only [h, Res.ok_bind]
-        have h2 := decMsgLoop_adv (dec f env true) ihd fds (body.length + 1) body []
+        have h2 := decMsgLoop_adv env (dec f env true) ihd fds (body.length + 1) body []
         cases hr : decMsgLoop true (dec f env true) fds (body.length + 1) body [] with
         | ok z =>
           obtain ⟨fs, rest⟩ := z
-          rw [hr] at h2; simp only [AdvLoop, vsizeFields] at h2
-          simp only [Res.ok_bind, Res.pure_eq, AdvBody, vsize, Facts.msgSizeBase]; omega
+          rw [hr] at h2; simp only [AdvLoop, gsizeFields] at h2
+          simp only [Res.ok_bind, Res.pure_eq, AdvBody, gsize, hn, Facts.msgSizeBase]; omega
         | err => simp [AdvBody]
         | panic => rw [hr] at h2; simp [AdvLoop] at h2
         | fuel => simp [AdvBody]
       · simp [h, AdvBody]
-    have hun : ∀ brs buf, AdvBody buf (decUnionBody (f+1) env true brs buf) := by
-      intro brs buf
+    have hun : ∀ n brs buf, env[n]? = some (.union brs) →
+        AdvBody env (.ref n) buf (decUnionBody (f+1) env true brs buf) := by
+      intro n brs buf hn
       simp only [decUnionBody]
       rcases readN_true 4 buf with ⟨bs, body, h, _, hl, _⟩ | h
       · simp only [h, Res.ok_bind]
@@ -264,7 +287,10 @@ theorem dec_adv_all (env : Env) : ∀ (f : Nat),
           simp only
           cases hm : brs.lookup b.toNat with
           | none =>
-            simp only [Res.pure_eq, AdvBody, emptyUnion, vsize, vsizeList, Facts.unionSizeBase]
+            simp only [Res.pure_eq, AdvBody]
+            have hle := gsize_emptyUnion_le env (.ref n)
+            simp only [emptyUnion, vsize, vsizeList, Facts.unionSizeBase] at hle
+            simp only [emptyUnion] at hle ⊢
             simp only [List.length_cons] at hl; omega
           | some m =>
             simp only
@@ -273,7 +299,7 @@ theorem dec_adv_all (env : Env) : ∀ (f : Nat),
             | ok p =>
               obtain ⟨v, rest'⟩ := p
               rw [hr] at h1; simp only [Adv] at h1
-              simp only [Res.ok_bind, Res.pure_eq, AdvBody, vsize, Facts.unionSizeBase]
+              simp only [Res.ok_bind, Res.pure_eq, AdvBody, gsize, hn, hm, Facts.unionSizeBase]
               simp only [List.length_cons] at hl; omega
             | err => simp [AdvBody]
             | panic => rw [hr] at h1; simp [Adv] at h1
@@ -285,39 +311,39 @@ theorem dec_adv_all (env : Env) : ∀ (f : Nat),
     | bool =>
       simp only [dec]
       rcases readN_true Facts.szBool buf with ⟨bs, rest, h, _, hl, _⟩ | h
-      · simp only [h, Res.ok_bind, Res.pure_eq, Adv, vsize]; simp [Facts.szBool] at hl; omega
+      · simp only [h, Res.ok_bind, Res.pure_eq, Adv, gsize]; simp [Facts.szBool] at hl; omega
       · simp [h, Adv]
     | scalar w =>
       simp only [dec]
       rcases readN_true w buf with ⟨bs, rest, h, _, hl, _⟩ | h
-      · simp only [h, Res.ok_bind, Res.pure_eq, Adv, vsize]; omega
+      · simp only [h, Res.ok_bind, Res.pure_eq, Adv, gsize]; omega
       · simp [h, Adv]
     | f32 =>
       simp only [dec]
       rcases readN_true Facts.szFloat32 buf with ⟨bs, rest, h, _, hl, _⟩ | h
-      · simp only [h, Res.ok_bind, Res.pure_eq, Adv, vsize]; simp [Facts.szFloat32] at hl; omega
+      · simp only [h, Res.ok_bind, Res.pure_eq, Adv, gsize]; simp [Facts.szFloat32] at hl; omega
       · simp [h, Adv]
     | f64 =>
       simp only [dec]
       rcases readN_true Facts.szFloat64 buf with ⟨bs, rest, h, _, hl, _⟩ | h
-      · simp only [h, Res.ok_bind, Res.pure_eq, Adv, vsize]; simp [Facts.szFloat64] at hl; omega
+      · simp only [h, Res.ok_bind, Res.pure_eq, Adv, gsize]; simp [Facts.szFloat64] at hl; omega
       · simp [h, Adv]
     | date =>
       simp only [dec]
       rcases readN_true Facts.szDate buf with ⟨bs, rest, h, _, hl, _⟩ | h
-      · simp only [h, Res.ok_bind, Res.pure_eq, Adv, vsize]; simp [Facts.szDate] at hl; omega
+      · simp only [h, Res.ok_bind, Res.pure_eq, Adv, gsize]; simp [Facts.szDate] at hl; omega
       · simp [h, Adv]
     | guid =>
       simp only [dec]
       rcases readN_true Facts.szGuid buf with ⟨bs, rest, h, _, hl, _⟩ | h
-      · simp only [h, Res.ok_bind, Res.pure_eq, Adv, vsize]; simp [Facts.szGuid] at hl; omega
+      · simp only [h, Res.ok_bind, Res.pure_eq, Adv, gsize]; simp [Facts.szGuid] at hl; omega
       · simp [h, Adv]
     | str =>
       simp only [dec]
       rcases readU32_true buf with ⟨n, rest, h, hl⟩ | h
       · simp only [h, Res.ok_bind]
         rcases readN_true n rest with ⟨bs, rest', h', hb, hl', _⟩ | h'
-        · simp only [h', Res.ok_bind, Res.pure_eq, Adv, vsize]; omega
+        · simp only [h', Res.ok_bind, Res.pure_eq, Adv, gsize]; omega
         · simp [h', Adv]
       · simp [h, Adv]
     | arr t =>
@@ -327,12 +353,12 @@ theorem dec_adv_all (env : Env) : ∀ (f : Nat),
         cases hfs : fixedSize t with
         | none =>
           simp only
-          have h2 := decN_adv (dec f env true t) (ihd t) n rest
+          have h2 := decN_adv env t (dec f env true t) (ihd t) n rest
           cases hr : decN (dec f env true t) n rest with
           | ok z =>
             obtain ⟨vs, rest'⟩ := z
             rw [hr] at h2; simp only [AdvList] at h2
-            simp only [Res.ok_bind, Res.pure_eq, Adv, vsize]; omega
+            simp only [Res.ok_bind, Res.pure_eq, Adv, gsize]; omega
           | err => simp [Adv]
           | panic => rw [hr] at h2; simp [AdvList] at h2
           | fuel => simp [Adv]
@@ -344,23 +370,23 @@ theorem dec_adv_all (env : Env) : ∀ (f : Nat),
             cases f with
             | zero =>
               cases n with
-              | zero => simp [decN, Adv, vsize, vsizeList]; omega
+              | zero => simp [decN, Adv, gsize, gsizeList]; omega
               | succ n => simp [decN, dec, Adv]
             | succ f' =>
               rcases decN_fixed_unsafe f' env t s hfs n rest (by omega) with hfu | ⟨vs, hvs, hsz⟩
               · simp [hfu, Adv]
-              · simp only [hvs, Res.ok_bind, Res.pure_eq, Adv, vsize, hsz, List.length_drop]; omega
+              · simp only [hvs, Res.ok_bind, Res.pure_eq, Adv, gsize, hsz, List.length_drop]; omega
       · simp [h, Adv]
     | map k v =>
       simp only [dec]
       rcases readU32_true buf with ⟨n, rest, h, hl⟩ | h
       · simp only [h, Res.ok_bind]
-        have h2 := decEntries_adv k (dec f env true k) (dec f env true v) (ihd k) (ihd v) n rest []
+        have h2 := decEntries_adv env k v k (dec f env true k) (dec f env true v) (ihd k) (ihd v) n rest []
         cases hr : decEntries k (dec f env true k) (dec f env true v) n rest [] with
         | ok z =>
           obtain ⟨kvs, rest'⟩ := z
-          rw [hr] at h2; simp only [AdvKVs, vsizeKVs] at h2
-          simp only [Res.ok_bind, Res.pure_eq, Adv, vsize]; omega
+          rw [hr] at h2; simp only [AdvKVs, gsizeKVs] at h2
+          simp only [Res.ok_bind, Res.pure_eq, Adv, gsize]; omega
         | err => simp [Adv]
         | panic => rw [hr] at h2; simp [AdvKVs] at h2
         | fuel => simp [Adv]
@@ -373,19 +399,19 @@ theorem dec_adv_all (env : Env) : ∀ (f : Nat),
         cases d with
         | struct tys =>
           simp only
-          have h2 := decFields_adv (dec f env true) ihd tys buf
+          have h2 := decFields_adv env (dec f env true) ihd tys buf
           cases hr : decFields (dec f env true) tys buf with
           | ok z =>
             obtain ⟨vs, rest'⟩ := z
-            rw [hr] at h2; simp only [AdvList] at h2
-            have hle : vsize (.struct vs) ≤ buf.length := by simp [vsize]; omega
+            rw [hr] at h2; simp only [AdvStruct] at h2
+            have hle : gsize env (.ref n) (.struct vs) ≤ buf.length := by simp only [gsize, hn]; omega
             simp only [Res.ok_bind, hle, if_true, Res.pure_eq, Adv, List.length_drop]; omega
           | err => simp [Adv]
-          | panic => rw [hr] at h2; simp [AdvList] at h2
+          | panic => rw [hr] at h2; simp [AdvStruct] at h2
           | fuel => simp [Adv]
         | msg fds =>
           simp only
-          have h2 := ihm fds buf
+          have h2 := ihm n fds buf hn
           cases hr : decMsgBody f env true fds buf with
           | ok z =>
             obtain ⟨v, rest'⟩ := z
@@ -399,7 +425,7 @@ theorem dec_adv_all (env : Env) : ∀ (f : Nat),
           | fuel => simp [Adv]
         | union brs =>
           simp only
-          have h2 := ihu brs buf
+          have h2 := ihu n brs buf hn
           cases hr : decUnionBody f env true brs buf with
           | ok z =>
             obtain ⟨v, rest'⟩ := z
